@@ -45,7 +45,9 @@ PROP = {
             "topics; handler scripts {result, error, unmarshalable result, panic, failing reply publish} with redelivery after Nack (several "
             "replies); AckCommandErrors on/off; no / 15-45 ms / 1 h ListenForReplyTimeout; callers {drain, read one then stop, never read, end "
             "the context before any reply, SendWithReply, parent context cancelled, SendWithReplies failing to send}; foreign notifications "
-            "injected; the reply Pub/Sub closed while contexts are alive (subscriber-closed path); scenarios with and without an "
+            "injected; the reply Pub/Sub closed while contexts are alive (subscriber-closed path); handler error texts containing % patterns, "
+            "compared byte for byte; caller contexts with their own deadline later / earlier than ListenForReplyTimeout and without a backend "
+            "time-out; scenarios with and without an "
             "OnListenForReplyFinished hook configured (without it the end of the listeners is taken from the goroutine census and the channel "
             "itself must be found closed); the hook made to wait until the draining caller saw the close (order close -> hook, conformance leg); "
             "the listener parked at "
